@@ -229,7 +229,6 @@ def exec_scenario(scn):
                         c.year = 1066
                     if hasattr(c, "edition_guess"):
                         c.edition_guess = None
-                    c.token.start = -5
                 if isinstance(r["res"], list):
                     del r["res"][: len(r["res"]) // 2]
             except Exception:
